@@ -134,18 +134,18 @@ func plansFor(thorough bool) []plan {
 	if thorough {
 		return []plan{
 			{stacks: bothStacks, maxSpell: 2, reps: 3, hdr: true,
-				histDepth: 2, histSpellings: []string{"exact", "encodedLetter", "trailingSlash", "query"}, histHdr: true, histStacks: bothStacks,
+				histDepth: 2, histSpellings: []string{"exact", "encodedLetter", "trailingSlash", "query"}, histStacks: bothStacks,
 				concW: []bool{false, true}, concAll: true, concStacks: bothStacks, concDur: 3 * time.Second},
 			{stacks: []string{"server"}, maxSpell: 3, reps: 3, hdr: true,
 				histDepth: 3, histSpellings: []string{"exact"}, histStacks: []string{"gate"}},
 			{stacks: bothStacks, maxSpell: 2, reps: 5, hdr: true,
-				histDepth: 2, histSpellings: []string{"exact", "upperCase"}, histStacks: bothStacks,
+				histDepth: 2, histSpellings: []string{"exact"}, histHdr: true, histStacks: bothStacks,
 				concW: []bool{false}, concStacks: bothStacks, concDur: 5 * time.Second},
 		}
 	}
 	return []plan{
 		{stacks: bothStacks, maxSpell: 1, reps: 2, hdr: true,
-			histDepth: 2, histSpellings: []string{"exact"}, histStacks: []string{"server"},
+			histDepth: 2, histSpellings: []string{"exact"}, histStacks: bothStacks,
 			concW: []bool{false}, concStacks: bothStacks, concDur: 1500 * time.Millisecond},
 		{stacks: []string{"server"}, maxSpell: 2, reps: 2},
 	}
